@@ -1,0 +1,30 @@
+//go:build verif
+
+package network
+
+// Read-only accessors used by the verification harness (property C15, fast-solver model file). Add-only; nothing
+// here is reachable from the library itself.
+
+// VerifFastModule is a copy of one control node of a fast solver.
+type VerifFastModule struct {
+	Activation int
+	Inputs     []int
+	Outputs    []int
+}
+
+// VerifFastSolverExtra returns what VerifFastSolverStatic leaves out: the Signal field of every connection and the
+// control nodes (nil entries are reported as a module with Activation -1).
+func VerifFastSolverExtra(f *FastModularNetworkSolver) (signals []float64, modules []VerifFastModule) {
+	for _, c := range f.connections {
+		signals = append(signals, c.Signal)
+	}
+	for _, m := range f.modules {
+		if m == nil {
+			modules = append(modules, VerifFastModule{Activation: -1})
+			continue
+		}
+		modules = append(modules, VerifFastModule{Activation: int(m.ActivationType),
+			Inputs: append([]int{}, m.InputIndexes...), Outputs: append([]int{}, m.OutputIndexes...)})
+	}
+	return signals, modules
+}
